@@ -59,7 +59,10 @@ pub fn one_scenario(rep: &Report, idx: usize, sc: &Scenario, keep: bool) -> Opti
                 }
             }
         } else {
-            // Information: bytes read from the local archive file at syscall level.
+            // Bytes read from the local archive file at syscall level: only the header and the
+            // stored ranges of the chunks that must be fetched, every byte once.
+            judge_local_reads(&o.shim, 1, b.arch.model.parsed.header_len as u64, &b.pred.fetch_ranges).map_err(|e| format!("cli-local: {}", e))?;
+            rep.count("cli.local_archive_read_logs_judged", 1);
             let read: u64 = o
                 .shim
                 .iter()
@@ -217,6 +220,106 @@ fn loop_device_cases(rep: &Report, seed: u64, n: usize) {
     }
 }
 
+/// Per-byte read coverage of a local archive from the shim's read log (offset + returned
+/// length of every read()/pread() on it).
+fn judge_local_reads(shim: &[crate::proc::Rec], widx: i32, header_len: u64, fetch: &[(u64, usize)]) -> Result<(), String> {
+    let mut reads: Vec<(u64, u64)> = shim
+        .iter()
+        .filter(|r| r.widx == widx && (r.kind == crate::proc::K_READ || r.kind == crate::proc::K_PREAD) && r.ret > 0 && r.off >= 0)
+        .map(|r| (r.off as u64, r.off as u64 + r.ret as u64))
+        .collect();
+    reads.sort();
+    for w in reads.windows(2) {
+        if w[1].0 < w[0].1 {
+            return Err(format!("archive bytes {}..{} were read more than once (reads {:?} and {:?})", w[1].0, w[0].1.min(w[1].1), w[0], w[1]));
+        }
+    }
+    let mut allowed: Vec<(u64, u64)> = vec![(0, header_len)];
+    allowed.extend(fetch.iter().map(|&(o, l)| (o, o + l as u64)));
+    allowed.sort();
+    for &(a, e) in &reads {
+        // every read must lie inside the union of allowed ranges
+        let mut pos = a;
+        while pos < e {
+            match allowed.iter().find(|r| r.0 <= pos && pos < r.1) {
+                Some(r) => pos = r.1,
+                None => return Err(format!("archive byte {} was read (read {}..{}) although it is neither header nor data of a chunk that has to be fetched", pos, a, e)),
+            }
+        }
+    }
+    Ok(())
+}
+
+/// Local archives with stored chunks larger than any buffer a reader starts with (1 - 3 MiB,
+/// raw and compressed), most chunks supplied by a seed: the read log of the archive file
+/// must cover the header and the missing chunks' ranges only, every byte once.
+fn big_chunk_local_case(rep: &Report, idx: usize, seed: u64) -> Option<String> {
+    use crate::refimpl::chunker::Cfg;
+    let mut rng = Rng::new(seed).fork(0x06b0 + idx as u64);
+    let dir = scn::case_dir("C06", 600_000 + idx);
+    let res = (|| -> Result<(), String> {
+        let n = rng.urange(1_100_000, 3_200_000);
+        let nchunks = rng.urange(4, 6);
+        let tail = rng.urange(1, n - 1);
+        let source = rng.bytes(n * nchunks + tail);
+        let comp = *rng.pick(&[crate::gen::Comp::None, crate::gen::Comp::None, crate::gen::Comp::Zstd(1)]);
+        let mut spec = scn::CompressSpec::new(Cfg::fixed(n), comp, 64);
+        if idx % 3 == 2 {
+            // a header of more than 1 MiB as well
+            let blob_len = rng.urange(1_100_000, 2_500_000);
+            spec.metadata_files.push(("blob".into(), rng.bytes(blob_len)));
+        }
+        let arch = scn::make_archive(&dir, "a", &source, &spec).map_err(|e| format!("inconclusive: {}", e))?;
+        // the seed holds every chunk but two
+        let missing: Vec<usize> = {
+            let mut v: Vec<usize> = (0..=nchunks).collect();
+            rng.shuffle(&mut v);
+            v.truncate(2);
+            v
+        };
+        let mut seed_data = Vec::new();
+        for i in 0..=nchunks {
+            if !missing.contains(&i) {
+                let (a, e) = (i * n, ((i + 1) * n).min(source.len()));
+                // every chunk is followed by a full junk block so that the fixed-size scan of
+                // the seed stays aligned
+                seed_data.extend_from_slice(&source[a..e]);
+                if e - a < n {
+                    seed_data.extend(rng.bytes(n - (e - a)));
+                }
+            }
+        }
+        let sp = dir.join("seed.bin");
+        std::fs::write(&sp, &seed_data).unwrap();
+        let pred = arch.model.predict(None, &[&seed_data[..]]);
+        let out = dir.join("o.bin");
+        let cs = scn::CloneSpec { archive: crate::proc::p(&arch.path), output: out.clone(), seeds: vec![sp], ..Default::default() };
+        let mut run = crate::proc::Run::new(&dir, "clone", scn::clone_args(&cs));
+        run.watch = vec![out.clone(), arch.path.clone()];
+        run.log_reads = true;
+        let o = crate::proc::run(&run);
+        rep.eval();
+        if o.exit == Exit::Timeout {
+            return Err("inconclusive: watchdog".into());
+        }
+        if !o.exit.ok() {
+            return Err(format!("inconclusive: clone failed: {}", o.tail()));
+        }
+        if std::fs::read(&out).map(|x| x != source).unwrap_or(true) {
+            return Err("inconclusive: output differs (judged by C01/C02)".into());
+        }
+        judge_local_reads(&o.shim, 1, arch.model.parsed.header_len as u64, &pred.fetch_ranges)?;
+        if pred.fetch_ranges.is_empty() {
+            return Err("inconclusive: nothing to fetch".into());
+        }
+        rep.count("big_chunk_local.read_logs_judged", 1);
+        rep.nontrivial(format!("bigchunk:{}:{}#{}", n, comp.describe(), idx));
+        Ok(())
+    })();
+    scn::cleanup(&dir, matches!(&res, Err(e) if !e.starts_with("inconclusive")));
+    res.err()
+}
+
 pub fn run(tier: Tier, seed: u64) -> i32 {
     let rep = Report::new("C06", "exploration", tier, seed);
     let n = tier.pick(700, 7000);
@@ -236,6 +339,20 @@ pub fn run(tier: Tier, seed: u64) -> i32 {
             );
         }
     }
+    {
+        let nb = tier.pick(6, 60);
+        let out = par_map(nb, 4, |i| (i, big_chunk_local_case(&rep, i, seed)));
+        for (i, r) in out {
+            match r {
+                None => {}
+                Some(why) if why.starts_with("inconclusive") => rep.inconclusive("big-chunk local case"),
+                Some(why) => rep.violation("c06/local/big chunks/archive read log", json!({"why": why}), json!({"engine": "bigchunk", "idx": i, "seed": seed})),
+            }
+        }
+        if rep.counter("big_chunk_local.read_logs_judged") == 0 {
+            rep.broken("no read log of a local archive with chunks over 1 MiB was judged".into());
+        }
+    }
     loop_device_cases(&rep, seed, tier.pick(2, 24));
     if rep.counter("cli.range_logs_judged") == 0 || rep.counter("cli.clones.blockdev") == 0 {
         rep.broken("no Range log judged / no block-device clone observed".into());
@@ -253,6 +370,20 @@ pub fn run(tier: Tier, seed: u64) -> i32 {
 
 pub fn replay(v: &Value) -> i32 {
     let r = &v["replay"];
+    if r["engine"] == "bigchunk" {
+        let rep = Report::new("C06", "exploration", Tier::Quick, r["seed"].as_u64().unwrap_or(1));
+        return match big_chunk_local_case(&rep, r["idx"].as_u64().unwrap_or(0) as usize, r["seed"].as_u64().unwrap_or(1)) {
+            Some(w) if !w.starts_with("inconclusive") => {
+                println!("replay: VIOLATED: {}", w);
+                println!("VIOLATION property=C06 replay=(replayed)");
+                1
+            }
+            other => {
+                println!("replay: property held on this case ({:?})", other);
+                0
+            }
+        };
+    }
     let mut rep = Report::new("C06", "exploration", Tier::Quick, 0);
     rep.replay_mode = true;
     match one_scenario(&rep, 900_000, &Scenario::from_json(&r["scenario"]), false) {
